@@ -391,3 +391,56 @@ def run(ctx):
     # makes it additive over output intervals and exactly 1/2 |c|^2 (t - s) for a constant integrand (rule of C12)
     from . import c12
     ctx.guard(c12.r12_4)
+
+
+# ------------------------------------------------------------------------------------------------ R18.7
+def r18_7(ctx):
+    """'The state trajectory returned is identical to the one returned without logqp': with fixed steps that follows from
+    R18.3 (the wrapper leaves the state channels alone).  With adaptive steps it also needs the step controller to look
+    at the state channels only: the running log-ratio is an extra channel of the solver's state (check_contract appends
+    a zero column to y0, decided by evaluating the validation phase on shapes), and an error estimate taken over the
+    whole state lets that channel take part in accepting / rejecting steps and in the next step size."""
+    from . import c19
+    from . import integrate_kit as ik
+    rep, model = ctx.rep, ctx.model
+    rep.rule("R18.7", "with logqp the error estimate of adaptive stepping is taken over the state channels only (the log-ratio "
+                      "channel, appended to the solver's state, does not influence which steps are accepted)")
+    # (a) the solver's state with logqp: one more channel than y0
+    B, d = 4, 3
+    hooks = c19.ContractHooks()
+    sde = c19.make_user_sde("diagonal", methods=("f", "g", "h"))
+    r = c19.eval_check_contract(model, sde=sde, y0=c19.TObj((B, d), "y0"), bm=None, method="euler", logqp=True, hooks=hooks)
+    call = getattr(hooks, "integration_call", None)
+    if r[0] != "ok" or call is None:
+        raise AnalysisError(f"R18.7: the validation phase with logqp=True does not reach the solver: {r[:2]}")
+    y_arg = next((a for a in call[1] + list(call[2].values()) if isinstance(a, c19.TObj) and len(a.shape) == 2), None)
+    augmented = y_arg is not None and tuple(int(x) for x in y_arg.shape) == (B, d + 1)
+    # (b) what the controller's error estimate is applied to
+    fi, prologue, for_node, while_node, tail, epilogue = ik.loop_structure(model)
+    rep.analysed(fi)
+    whole = []
+    for p in ik.enumerate_paths(model, True, while_node.body):
+        for args, kwargs, node, no_grad in p.extras["compute_error"]:
+            for a in list(args[:2]):
+                atoms = nf.all_atoms(a) if isinstance(a, Rat) else []
+                is_whole_state = isinstance(a, Rat) and len(a.num.terms) == 1 and any(t[0] == "fn" and t[1] == "STEP_Y" for t in atoms) \
+                    and nf.equal(a, Rat.atom(next(t for t in atoms if t[0] == "fn" and t[1] == "STEP_Y" and nf.equal(Rat.atom(t), a))))
+                whole.append(is_whole_state)
+    if not whole:
+        raise AnalysisError("R18.7: no compute_error call found on the adaptive paths", where=astq.loc(fi))
+    bad = augmented and all(whole)
+    rep.check(not bad, "R18.7", astq.loc(fi), f"{fi.key}::R18.7::controller-sees-log-ratio-channel",
+              f"with logqp=True the solver's state has {d + 1} channels for a {d}-channel y0 (the running log-ratio is appended by "
+              f"check_contract), and integrate hands the whole states of the full step and of the two half steps to "
+              f"compute_error: the log-ratio channel takes part in the error estimate, so with adaptive=True the accepted "
+              f"steps, and with them the returned states, differ from those of the same solve without logqp",
+              "error estimate over the state channels only")
+    ctx.floor("R18.7", 1)
+
+
+_run_before_r18_7 = run
+
+
+def run(ctx):
+    _run_before_r18_7(ctx)
+    ctx.guard(r18_7)
